@@ -658,11 +658,78 @@ package base
 //@   ensures [C20] callerrorcites: ncall == 1 && callerr != nil ==> result.1 != nil && cite(result.1) == tlc.LineNum
 //@   modifies frame evalframe
 
+// one argument (C03): exactly one alternative is evaluated, in the fixed order variable, constant, function call,
+// method call, three-level call, container element, expression; its value and error are passed through
+//@ func (*Arg).Evaluate
+//@   props C03
+//@   requires a != nil
+//@   ghost n int = 0
+//@   ghost cv rv = RV_zero()
+//@   ghost ce error = nil
+//@   oncall (*context.DataContext).GetValue
+//@     assert [C03] variable: n == 0 && len(a.Variable) > 0 && arg1 == a.Variable && arg0 == Vars && recv == dc
+//@     after n := n + 1
+//@     after cv := callresult.0
+//@     after ce := callresult.1
+//@   oncall (*Constant).Evaluate
+//@     assert [C03] constant: n == 0 && len(a.Variable) == 0 && recv == a.Constant
+//@     after n := n + 1
+//@     after cv := callresult.0
+//@     after ce := callresult.1
+//@   oncall (*FunctionCall).Evaluate
+//@     assert [C03] function: n == 0 && len(a.Variable) == 0 && a.Constant == nil && recv == a.FunctionCall
+//@     after n := n + 1
+//@     after cv := callresult.0
+//@     after ce := callresult.1
+//@   oncall (*MethodCall).Evaluate
+//@     assert [C03] method: n == 0 && len(a.Variable) == 0 && a.Constant == nil && a.FunctionCall == nil && recv == a.MethodCall
+//@     after n := n + 1
+//@     after cv := callresult.0
+//@     after ce := callresult.1
+//@   oncall (*ThreeLevelCall).Evaluate
+//@     assert [C03] threelevel: n == 0 && len(a.Variable) == 0 && a.Constant == nil && a.FunctionCall == nil && a.MethodCall == nil && recv == a.ThreeLevelCall
+//@     after n := n + 1
+//@     after cv := callresult.0
+//@     after ce := callresult.1
+//@   oncall (*MapVar).Evaluate
+//@     assert [C03] element: n == 0 && len(a.Variable) == 0 && a.Constant == nil && a.FunctionCall == nil && a.MethodCall == nil && a.ThreeLevelCall == nil && recv == a.MapVar
+//@     after n := n + 1
+//@     after cv := callresult.0
+//@     after ce := callresult.1
+//@   oncall (*Expression).Evaluate
+//@     assert [C03] expression: n == 0 && len(a.Variable) == 0 && a.Constant == nil && a.FunctionCall == nil && a.MethodCall == nil && a.ThreeLevelCall == nil && a.MapVar == nil && recv == a.Expression
+//@     after n := n + 1
+//@     after cv := callresult.0
+//@     after ce := callresult.1
+//@   ensures [C03] passthrough: n == 1 ==> result.0 == cv && result.1 == ce
+//@   ensures [C03] one: len(a.Variable) > 0 || a.Constant != nil || a.FunctionCall != nil || a.MethodCall != nil || a.ThreeLevelCall != nil || a.MapVar != nil || a.Expression != nil ==> n == 1
+//@   ensures [C03] none: len(a.Variable) == 0 && a.Constant == nil && a.FunctionCall == nil && a.MethodCall == nil && a.ThreeLevelCall == nil && a.MapVar == nil && a.Expression == nil ==> n == 0 && result.1 != nil
+//@   modifies frame evalframe
+
+// argument list (C03): the arguments are evaluated once each, in order, the i-th value is stored at position i of a
+// fresh slice; the first error ends the evaluation and is returned
 //@ func (*Args).Evaluate
 //@   props C03
+//@   arith int unchecked
+//@   requires as != nil
+//@   assume forall qi :: lo(as.ArgList) <= qi && qi < hi(as.ArgList) ==> at(as.ArgList, qi) != nil
+//@   ghost cnt int = 0
+//@   ghost AV = anyrvmap()
+//@   ghost aerr error = nil
+//@   oncall (*Arg).Evaluate
+//@     assert [C03] inorder: aerr == nil && 0 <= cnt && cnt < len(as.ArgList) && recv == as.ArgList[cnt]
+//@     after AV := store(AV, cnt, callresult.0)
+//@     after aerr := callresult.1
+//@     after cnt := cnt + 1
+//@   ensures [C03] all: result.1 == nil ==> cnt == len(as.ArgList) && len(result.0) == len(as.ArgList) && (forall qi :: 0 <= qi && qi < len(as.ArgList) ==> result.0[qi] == AV[qi])
+//@   ensures [C03] firsterror: result.1 != nil ==> result.1 == aerr
+//@   ensures [C03] freshslice: isnil(result.0) || fresh(arr(result.0))
 //@   ensures result.1 == nil ==> len(result.0) == len(as.ArgList)
 //@   modifies frame evalframe
-//@   trusted argument list contract pending
+//@   loopwrites Vars
+//@   loop 0 invariant shape: fresh(arr(retVal)) && lo(retVal) == 0 && len(retVal) == len(as.ArgList) && -1 <= rangeindex && rangeindex < len(as.ArgList) && cnt == rangeindex + 1 && aerr == nil
+//@   loop 0 invariant filled: forall qi :: 0 <= qi && qi <= rangeindex ==> at(retVal, qi) == AV[qi]
+//@   loop 0 decreases len(as.ArgList) - rangeindex
 
 // ---------------------------------------------------------------------------
 // conc { ... } (C18): Add(total) ; four spawners fork one task per statement ; each task evaluates its statement
